@@ -140,6 +140,18 @@ def opChain (j : Json) : Except String Json := do
     return Json.mkObj (base ++ [("holds", Json.bool h)])
   | .error _ => return Json.mkObj base
 
+/-- when the request carries `trajs` and `lag`, judge the captured cumulative matrix against the exact model -/
+def cumJudge (j : Json) (cum : List (List Rat)) (perm : List (List Nat)) : Bool :=
+  match j.getObjVal? "trajs", j.getObjVal? "lag" with
+  | .ok tj, .ok lj =>
+    match trajs? tj, nat? lj with
+    | .ok ts, .ok lag =>
+      match Msm.estimate ts lag with
+      | .ok (_, T, _) => Mcmc.holdsCummat T cum perm
+      | .error _ => false
+    | _, _ => false
+  | _, _ => true
+
 /-- C08: the msm event loops on the realised chain; `kind` = "wt" | "tt" -/
 def opMsmTimes (j : Json) : Except String Json := do
   let cum ← ratMat? (← field j "cum")
@@ -157,7 +169,8 @@ def opMsmTimes (j : Json) : Except String Json := do
   let (dens, edges) := Events.histDensity h lag
   return Json.mkObj [("model", Json.mkObj [("ok", Json.mkObj [
     ("chain", ofInts xs), ("hist", ofList (fun (e : Nat × Nat) => Json.arr #[ofNat e.1, ofNat e.2]) h),
-    ("list", ofNats lst), ("density", ofRats dens), ("edges", ofNats edges)])]), ("holds", Json.bool true)]
+    ("list", ofNats lst), ("density", ofRats dens), ("edges", ofNats edges)])]), ("cum_ok", Json.bool (cumJudge j cum perm)),
+    ("holds", Json.bool true)]
 
 /-- C13: `compare_discretization` -/
 def opCompare (j : Json) : Except String Json := do
@@ -517,6 +530,21 @@ def opCk (j : Json) : Except String Json := do
     k := k + 1
   return Json.mkObj [("model", Json.mkObj [("ok", Json.arr (why.map Json.str).toArray)]), ("holds", Json.bool ok)]
 
+/-- C08: `msm.estimate_paths` = md pathway extraction applied to the realised labelled chain -/
+def opMsmPaths (j : Json) : Except String Json := do
+  let cum ← ratMat? (← field j "cum")
+  let perm ← natMat? (← field j "perm")
+  let start ← nat? (← field j "start")
+  let steps ← nat? (← field j "steps")
+  let us ← rats? (← field j "us")
+  let sts ← ints? (← field j "states")
+  let S ← ints? (← field j "S")
+  let F ← ints? (← field j "F")
+  let chain := (Mcmc.chain cum perm start steps us).map (fun (i : Nat) => labelOf sts (i : Int))
+  let model := Events.mdPaths [chain] S F
+  return Json.mkObj [("model", ofExcept ofPathTuples model), ("chain", ofInts chain), ("cum_ok", Json.bool (cumJudge j cum perm)),
+    ("holds", Json.bool true)]
+
 def dispatch (j : Json) : Except String Json := do
   let op ← str? (← field j "op")
   match op with
@@ -532,6 +560,7 @@ def dispatch (j : Json) : Except String Json := do
   | "mcmc_public" => opMcmcPublic j
   | "tmat_public" => opTmatPublic j
   | "msm_times" => opMsmTimes j
+  | "msm_paths" => opMsmPaths j
   | "compare" => opCompare j
   | "shift" => opShift j
   | "rename" => opRename j
